@@ -3,10 +3,10 @@
      prog:  S <hexpath> <hexdata>          M <hexpath> <mode>
             T <hexpath> <hexdata>  (save only if the latest save succeeded)
             E <hexpath> <hexdata>  (save only if the latest save failed)
-     ops:   o <fd> <hexpath> <perm> | w <fd> <hexdata> | c <fd> | r <hexa> <hexb>
+     ops:   e <fd> <hexpath> <perm> (exclusive create) | o <fd> <hexpath> <perm> (create/truncate) | w <fd> <hexdata> | c <fd> | r <hexa> <hexb>
             | m <hexpath> <mode> | u <hexpath>
    Requests:
-     ops / PROG                      -> the model's operation list
+     ops / INIT / PROG               -> the model's operation list from that state
      crash / INIT / PROG / OPS       -> "ok <n>"  |  "bad <i> <hexpath> / <ops of that crash point>"
      state / INIT / OPS              -> "F ..." listing of the file system after OPS
      fault / INIT / PROG / k short e -> "<trace with results> / <stderr entries> / <listing>"  (k = -1: no fault)
@@ -40,6 +40,7 @@ let parse_prog (toks : string list) : action list =
 
 let parse_ops (toks : string list) : op list =
   let rec go acc = function
+    | "e" :: fd :: p :: m :: rest -> go (OpenExcl (n_of_int (int_of_string fd), bytes_of_hex p, n_of_int (int_of_string m)) :: acc) rest
     | "o" :: fd :: p :: m :: rest -> go (Open (n_of_int (int_of_string fd), bytes_of_hex p, n_of_int (int_of_string m)) :: acc) rest
     | "w" :: fd :: d :: rest -> go (Write (n_of_int (int_of_string fd), bytes_of_hex d) :: acc) rest
     | "c" :: fd :: rest -> go (Close (n_of_int (int_of_string fd)) :: acc) rest
@@ -53,6 +54,7 @@ let parse_ops (toks : string list) : op list =
 let show_op (o : op) : string =
   match o with
   | Open (fd, p, m) -> Printf.sprintf "o %d %s %d" (int_of_n fd) (hex_of_bytes p) (int_of_n m)
+  | OpenExcl (fd, p, m) -> Printf.sprintf "e %d %s %d" (int_of_n fd) (hex_of_bytes p) (int_of_n m)
   | Write (fd, d) -> Printf.sprintf "w %d %s" (int_of_n fd) (hex_of_bytes d)
   | Close fd -> Printf.sprintf "c %d" (int_of_n fd)
   | Rename (a, b) -> Printf.sprintf "r %s %s" (hex_of_bytes a) (hex_of_bytes b)
@@ -62,11 +64,11 @@ let show_op (o : op) : string =
 let show_ops (l : op list) : string = String.concat " " (List.map show_op l)
 
 let show_errno (e : errno) : string =
-  match e with ENOENT -> "ENOENT" | EBADF -> "EBADF" | ENOSPC -> "ENOSPC" | EIO -> "EIO" | EACCES -> "EACCES" | EXDEV -> "EXDEV"
+  match e with ENOENT -> "ENOENT" | EBADF -> "EBADF" | ENOSPC -> "ENOSPC" | EIO -> "EIO" | EACCES -> "EACCES" | EXDEV -> "EXDEV" | EEXIST -> "EEXIST"
 
 let parse_errno (s : string) : errno =
   match s with
-  | "ENOENT" -> ENOENT | "EBADF" -> EBADF | "ENOSPC" -> ENOSPC | "EIO" -> EIO | "EACCES" -> EACCES | "EXDEV" -> EXDEV
+  | "ENOENT" -> ENOENT | "EBADF" -> EBADF | "ENOSPC" -> ENOSPC | "EIO" -> EIO | "EACCES" -> EACCES | "EXDEV" -> EXDEV | "EEXIST" -> EEXIST
   | _ -> failwith "bad errno"
 
 let show_fs (m : fsmap) : string =
@@ -77,7 +79,7 @@ let show_kind (k : errkind) : string =
 
 let handle (args : string list) : string =
   match split_sections args with
-  | [["ops"]; prog] -> show_ops (prog_ops (parse_prog prog))
+  | [["ops"]; init; prog] -> show_ops (prog_ops (parse_init init) (parse_prog prog))
   | [["crash"]; init; prog; ops] ->
     let ops = parse_ops ops in
     (match check_crashes (parse_init init) (parse_prog prog) ops with
